@@ -70,5 +70,7 @@ def run(ctx):
     ctx.assumptions = ["pool calls are issued from the loop thread only (the class's contract)",
                        "worker / task identity in the trace is the harness's numbering of thread and task tokens",
                        "hang detection uses a 20 s watchdog (only reached when the pool really stops making progress)"]
-    ctx.uncovered = ["WorkThread is covered by the same model (single worker, one queue) and received the same repairs, but has no "
-                     "hook points: only ThreadPool executions are recorded and validated"]
+    ctx.notes.append("WorkThread executions (a quarter of the random scripts and two scenarios) are validated against the same data "
+                     "actions with min = max = 1")
+    ctx.uncovered = ["the lost wake-up window of WorkThread has no gated scenario (its wait predicate has no hook point); the race that "
+                     "causes it is observed by ThreadSanitizer"]
